@@ -1,6 +1,107 @@
 // C02 — secured connections and streams deliver bytes intact, in order, once.
 //
-// (header comment with oracles, weaker readings and the sensitivity record: see the end of the work; filled in below)
+// Full-stack, lock-level simulation. Every layer named by the property is a stratum, drawn first from the tape:
+//
+//	noise       real noise.Transport handshake over a raw simnet pipe, then Read/Write on the sec.SecureConn
+//	tls         real libp2ptls.Transport likewise (crypto/tls underneath; whole deliveries during the handshake)
+//	pnet        pnet.NewProtectedConn on both pipe ends (XSalsa20 stream, not authenticated: no adversary stratum)
+//	mux-noise   two real swarms (simhost): TCP dial path, upgrader, Noise, yamux; swarm streams (swarm_stream.go,
+//	mux-tls     p2p/muxer/yamux glue, go-yamux) over Noise / TLS
+//	host-noise  two real basic hosts: NewStream after identify returns the lazy-multistream streamWrapper, the
+//	host-tls    listener's handler is reached through the real multistream negotiation; one protocol id per stream
+//
+// (tcpreuse's sampledconn lives in an internal package and is not covered: gap.)
+//
+// One run: per (stream, direction) a writer task issues 0-5 writes (sizes biased to 0, 1, 65518-65520, 65535-65537,
+// 2x and 3x+1 Noise frames, the yamux window, a yamux frame that is exactly one maximal Noise frame -1/0/+1) and then
+// half-closes (CloseWrite on streams, tls CloseWrite, TCP FIN underneath Noise / PSK); a reader task on the other side
+// reads with a cycle of buffer sizes (1, 2, 15-17, pending frame -17..+1, 64Ki+-1, 1Mi, "leave j bytes of the frame
+// then 1-2 byte reads across the edge") with 0-64 bytes of spare capacity behind len(buf), until EOF, then reads 1-3
+// more times. 1-4 streams, i.e. up to 16 concurrent tasks. The byte at (stream, direction, offset) is a keyed function
+// (payload.go); read buffers are pre-filled with its complement. The wire delivers whole queues, drawn fragments or 1-3
+// bytes at a time.
+//
+// Fault strata (drawn; kept apart so that a relaxation cannot hide an ordinary bug):
+//
+//	clean       fragmentation only
+//	timing      link latency, reader deadlines (1 ms - 3 s) with retry, writer pauses up to 8 s, late readers
+//	stall       one raw endpoint stops receiving at its k-th I/O call; readers have deadlines and give up
+//	adversary   frame-aware man in the middle on the raw connection (mitm.go), armed at a quiescent instant after the
+//	            handshakes: ONE ciphertext frame (Noise: 2-byte length + ciphertext; TLS: record) of one direction
+//	            is bit-flipped (header / first / middle / last byte), dropped, duplicated, swapped with its
+//	            neighbour, or the stream is cut in front of / in the middle of it
+//	peer-close  no fault: one side closes the whole connection as soon as all its own tasks are done while the
+//	            other side's readers lag (this stratum found the yamux defect below without any tampering)
+//
+// Oracles (violation classes; <lay> = layer, <ctx> = "" | /after-tamper | /after-peer-close | /after-timeout | /after-stall):
+//
+//	C02/wrong-bytes/<lay><ctx>              after EVERY Read: the bytes returned continue the planned stream at the
+//	                                        reader's offset (prefix oracle; the first wrong offset and where the bytes
+//	                                        come from are reported). Holds in every stratum.
+//	C02/more-than-written/<lay><ctx>        ... and had been handed to Write before the Read returned.
+//	C02/read-count-out-of-range, C02/read-wrote-past-buffer   n outside [0, len(buf)]; bytes behind len(buf) changed.
+//	C02/write-count-out-of-range, C02/short-write-without-error, C02/write-modified-buffer   io.Writer contract.
+//	C02/premature-eof/<lay>/<eof-alone|eof-with-data>/<before-close|bytes-missing><ctx>
+//	                                        Read returned io.EOF although the writer had not begun to close / although
+//	                                        Write had accepted more and the write side was closed in order. Every stratum.
+//	C02/premature-eof/stream/eof-returned-with-data   the same on a stream layer when the EOF came together with data
+//	                                        (one class whatever the security transport and the context: signature of
+//	                                        the muxer handing a connection-level error out of Read; see FOUND).
+//	C02/data-after-eof/<lay><ctx>           a Read after the (genuine) end returned data.
+//	C02/delivered-more-than-accepted        more bytes arrived than Write return values sum to (writer without error).
+//	C02/incomplete/<lay>/<read-kind|write-kind|short>   strong regime only (no fault fired, this reader saw no timeout):
+//	                                        the reader must reach io.EOF with planned == accepted == delivered.
+//	C02/hang/<lay>                          strong regime: no Read/Write returned for 3 virtual minutes.
+//	C02/read-no-progress/<lay>              more than 8 consecutive (0, nil) Reads with a non-empty buffer.
+//	C02/panic/<lay>
+//
+// Under tampering / stall / peer close / after a timeout on the reader ("weak regime") an operation may fail and
+// un-delivered bytes may be lost: the prefix and EOF oracles stay, completeness is not demanded.
+//
+// Weaker readings (guide rules 1 and 6):
+//   - "truncated ... the reader gets an error": on the BARE Noise and TLS connections a cut on a frame boundary (or a
+//     withheld tail) reads as io.EOF: Noise has no termination message, crypto/tls deliberately accepts a FIN on a
+//     record boundary without close_notify. Accepted there (actions truncate / drop / swap only); the stream layers are
+//     held to the strict rule because yamux's FIN travels inside the authenticated channel. See judge().
+//   - EOF means io.EOF itself (io.Reader: callers compare with ==). An error that merely wraps io.EOF (yamux "stream
+//     reset: connection closed: EOF", pnet "could not read full nonce: EOF") is an error; after the last byte and after
+//     the writer closed it is accepted as the end (probe clean-end-reported-as-wrapped-eof: an empty PSK stream).
+//   - (0, nil) from Read is tolerated (Noise returns it once after a read with frame-16 <= len(buf) < frame).
+//   - after EOF only "never data" is demanded of further Reads (any error, or (0, nil)).
+//   - read deadlines / retries are outside the property's quantifier: see deadlineObservation (two observations, probes).
+//   - a failed Write's count is only an upper bound: nothing is demanded of Write counts after an error.
+//   - a 0-byte Write is a no-op on every layer; 0-length read buffers are not used (yamux blocks on them).
+//
+// FOUND with this harness (history in the replay trace of the class, fixed in /repo by f6576df):
+// go-yamux Stream.Read returns the error of sendWindowUpdate next to the data; once the session has ended because the
+// peer closed the connection that error is the bare io.EOF, so a reader draining >= 128 KiB of buffered data got
+// (n > 0, io.EOF) with more bytes still buffered - io.ReadAll truncated silently. Class
+// C02/premature-eof/stream/eof-returned-with-data; reproduced by reverting the fix (M11).
+//
+// Sensitivity (2026-09-26): one mutation at a time in a private copy of the generated overlay, 8 workers, seed 1,
+// budget 60 s. Time to the first violation / classes:
+//
+//	M1   noise Read: qseek += copied+1 (queued-remainder seek off by one)        <1 s  wrong-bytes/noise, panic/noise
+//	M1b  noise Read: first partial read of a frame skips one byte more             3 s  wrong-bytes/noise, wrong-bytes/mux-noise
+//	M1c  noise Read: remainder of a large frame released one byte early           <30 s wrong-bytes/noise (offset 65518), read-no-progress/noise
+//	M2   noise Write: chunk of MaxPlaintextLength+1                               16 s  incomplete/noise/read-error, incomplete/mux-noise/*
+//	M2'  noise Write: `total < MaxPlaintextLength` -> `<=` (buffer size branch)   equivalent (both branches give 65537 bytes), not run
+//	M3   noise Read: in-place path when len(buf) == frame-1                        2 s  read-wrote-past-buffer/noise, panic/noise (slice bounds)
+//	M3b  noise Read: in-place path when len(buf) >= plaintext-1 and cap allows     1 s  read-wrote-past-buffer/noise
+//	M4   sampledconn peeked bytes                                                  layer not covered (internal package)
+//	M5a  streamWrapper.Write bypasses the lazy conn                                1 s  hang/host-tls, hang/host-noise
+//	M5b  streamWrapper.Read bypasses the lazy conn                                10 s  more-than-written/host-noise, /host-tls
+//	M6a  noise: nonce pinned on both sides (consistent reuse)                      8 s  wrong-bytes/noise/after-tamper, more-than-written/noise/after-tamper,
+//	                                                                                    wrong-bytes/mux-noise/after-tamper (adversary stratum only, by construction)
+//	M6b  noise: nonce not advanced after some encryptions                         13 s  incomplete/noise/read-error, incomplete/mux-noise/*
+//	M7   yamux glue Read returns n+1                                               3 s  more-than-written/host-tls, wrong-bytes/mux-noise, wrong-bytes/host-noise
+//	M8   pnet Read decrypts the whole buffer instead of out[:n]                    1 s  wrong-bytes/pnet
+//	M9   swarm Stream.Write reports len(p) next to an error                       MISSED: not observable through the statement (see weaker readings)
+//	M10  streamWrapper.CloseWrite without Flush                                    7 s  hang/host-tls, hang/host-noise
+//	M11  revert of f6576df (yamux glue passes (n>0, io.EOF) on)                   13 s  premature-eof/stream/eof-returned-with-data
+//	M12  pnet Write encrypts in place                                              1 s  write-modified-buffer/pnet
+//	M13  swarm Stream.CloseWrite closes both directions                            4 s  incomplete/*/read-reset, write-reset
+//	M14  noise Read swallows a decrypt error (skips the frame)                     8 s  premature-eof/noise/eof-alone/bytes-missing/after-tamper
 package c02
 
 import (
@@ -45,11 +146,11 @@ type world struct {
 	n    *simnet.Net
 	mitm *mitm
 
-	gate     chan struct{}
-	progress atomic.Int64
-	pending  atomic.Int64 // tasks not finished (started or not)
-	closing  atomic.Bool  // teardown has begun: handlers must not start new tasks
-	peerClosed atomic.Bool // peer-close stratum: the closing side has closed its connection
+	gate       chan struct{}
+	progress   atomic.Int64
+	pending    atomic.Int64 // tasks not finished (started or not)
+	closing    atomic.Bool  // teardown has begun: handlers must not start new tasks
+	peerClosed atomic.Bool  // peer-close stratum: the closing side has closed its connection
 	aux        atomic.Int32 // auxiliary harness tasks alive (they must be gone before main returns)
 
 	rawA, rawB *simnet.Conn
@@ -555,8 +656,7 @@ func (w *world) teardown() {
 		}
 		simrt.TimeSleep(time.Second)
 	}
-	// simnet pumps may be inside a latency sleep; synctest stops advancing time once the bubble's root returns,
-	// so let them wake up and see the closed connection before main returns
+	// simnet pumps may be inside a latency sleep: let them wake up and see the closed connection before main returns
 	simrt.TimeSleep(50 * time.Millisecond)
 	simrt.WaitIdle()
 	if debug {
@@ -583,6 +683,7 @@ func (w *world) violate(class, detail string) {
 //   - noise secureSession.Read loses the length byte / ciphertext consumed before the deadline and carries on in the
 //     middle of the frame: mostly an authentication error follows, but a bogus length can swallow the rest of the
 //     stream, after which the peer's FIN reads as a clean io.EOF with bytes missing.
+//
 // Neither is reachable through the assembled stack (the upgrader closes the connection on a timeout, yamux reads the
 // secured connection without deadlines). Both were first seen as failures of the prefix / EOF oracles (histories in the
 // report to the lead). Now the CONDITION is counted: when a timeout is returned to a reader of one of these two layers
